@@ -1,0 +1,5 @@
+//go:build !verif
+
+package ansi
+
+func verifSched(p *Parser, point int) {}
